@@ -5,3 +5,4 @@ import YardlModel.Expr
 import YardlModel.Imports
 import YardlModel.Cli
 import YardlModel.Determinism
+import YardlModel.Proto
